@@ -199,6 +199,30 @@ func (r *envRig) uuidName(u uuid.UUID) string {
 	return "other:" + u.String()
 }
 
+// benign edits: the n-th edit replaces the text's suffix by benignSuffix[n].  The suffixes are pairwise different
+// contents, chosen so that neighbours are easily confused by an encoder (control characters that differ in one
+// bit, a five-digit escape, a backslash sequence and the character it names): every edit is a change of content.
+var benignSuffix = []string{"", "\u001b", "\u000b", "\u0010", "\u00010", "\\n", "\n", "x", "xx", "xxx", "xxxx"}
+
+func benignCount(s string) int {
+	n := 0
+	for i, sf := range benignSuffix {
+		if i > 0 && strings.HasSuffix(s, sf) && len(sf) >= len(benignSuffix[n]) {
+			n = i
+		}
+	}
+	return n
+}
+
+func benignNext(s string) string {
+	n := benignCount(s)
+	base := strings.TrimSuffix(s, benignSuffix[n])
+	if n+1 < len(benignSuffix) {
+		return base + benignSuffix[n+1]
+	}
+	return s + "x"
+}
+
 func (r *envRig) project(env *gobl.Envelope) envState {
 	st := envState{Stamps: [][]string{}, Links: [][]string{}, Tags: []string{}, Meta: [][]string{}, Sigs: []sigProj{}}
 	switch d := env.Extract().(type) {
@@ -207,12 +231,12 @@ func (r *envRig) project(env *gobl.Envelope) envState {
 		st.Code = d.Code != ""
 		st.Valid = d.Supplier != nil && d.Supplier.Name != ""
 		if len(d.Lines) > 0 && d.Lines[0].Item != nil {
-			st.Name = strings.Count(d.Lines[0].Item.Name, "x")
+			st.Name = benignCount(d.Lines[0].Item.Name)
 		}
 	case *note.Message:
 		st.Kind = "note"
 		st.Valid = d.Content != ""
-		st.Name = strings.Count(d.Title, "x")
+		st.Name = benignCount(d.Title)
 	default:
 		st.Kind = fmt.Sprintf("%T", d)
 	}
@@ -276,9 +300,9 @@ func (r *envRig) apply(env **gobl.Envelope, op Op) (out string) {
 	case "EditBenign":
 		switch d := e.Extract().(type) {
 		case *bill.Invoice:
-			d.Lines[0].Item.Name += "x"
+			d.Lines[0].Item.Name = benignNext(d.Lines[0].Item.Name)
 		case *note.Message:
-			d.Title += "x"
+			d.Title = benignNext(d.Title)
 		}
 		return "ok"
 	case "SetCode":
